@@ -58,6 +58,7 @@ def plans_for(trace, reads, tier, rng):
 def fault_sig(plan):
     fs = plan.get("faults", [])
     return {"fault_kinds": sorted({f["op"] for f in fs}), "n_faults": len(fs),
+            "rename_faulted": any(f["op"] == "rename" for f in fs), "unlink_faulted": any(f["op"] == "unlink" for f in fs),
             "read_fault": bool(plan.get("read_faults")), "persistent": any(f.get("persistent") for f in fs)}
 
 
@@ -98,7 +99,29 @@ def eval_task(task):
 def base_task(task):
     world = gen_fault_world(task_rng("C17", task["seed"], task["i"]))
     obs = run_world(world, {})
-    return {"world": world, "trace": obs["trace"], "reads": obs["reads"], "exit": obs["exit"]}
+    # second level: the calls issued once the rename was refused (shutil.move's copy + delete fallback)
+    obs2 = run_world(world, {"faults": [{"op": "rename", "nth": 0, "errno": "EXDEV"}]})
+    after = []
+    seen_rename = False
+    counts = {}
+    for rec in obs2["trace"]:
+        k = rec[0]
+        n = counts.get(k, 0)
+        counts[k] = n + 1
+        if seen_rename:
+            after.append((k, n))
+        if k == "rename":
+            seen_rename = True
+    return {"world": world, "trace": obs["trace"], "reads": obs["reads"], "exit": obs["exit"], "after_rename_fault": after}
+
+
+def second_level_plans(after, tier):
+    errs = ("EACCES", "ENOSPC", "EIO") if tier == "quick" else ERRNOS
+    plans = []
+    for (k, n) in sorted(set(after)):
+        for e in errs:
+            plans.append({"faults": [{"op": "rename", "nth": 0, "errno": "EXDEV"}, {"op": k, "nth": n, "errno": e}]})
+    return plans
 
 
 def run(tier, seed):
@@ -111,7 +134,7 @@ def run(tier, seed):
         if "machinery" in b:
             from ..lean import MachineryError
             raise MachineryError(b["machinery"])
-        for plan in plans_for(b["trace"], b["reads"], tier, ck.rng):
+        for plan in plans_for(b["trace"], b["reads"], tier, ck.rng) + second_level_plans(b["after_rename_fault"], tier):
             tasks.append({"world": b["world"], "plan": plan})
     results = run_tasks(eval_task, tasks)
     from ..lean import MachineryError
